@@ -10,11 +10,11 @@
     pathOf esc fs                       the documented unescaping of the path field
     ValidPath p                         p ≠ [] ∧ NUL ∉ p ∧ U+FFFD ∉ p
     IsTerm t                            t is "", "\n" or "\r\n"
+    hasDbl p                            p contains two consecutive spaces
 
-  The model is that of the code after the fix commits 008d515 (non-ASCII hash fields are rejected
-  before decoding) and bb2f114 (the tagged form is tried first).  Every theorem below holds at full
-  strength; the witnesses that refuted `parse_total`, `parse_format_tagged` and the rejection
-  theorems on the unfixed code are kept as `example`s showing the new behaviour.
+  Theorems that are FALSE for the code as it exists are recorded as `…_false` (the negation, with a
+  concrete witness evaluated on the model by `decide`; every witness was replayed on the real code
+  through harness/b3sum) next to `…_partial` (the strongest true version).
 -/
 import B3.B3sum.Proofs
 
@@ -22,12 +22,26 @@ namespace B3.B3sum
 
 /-! ## parse_total -/
 
-/-- parsing never panics, for every line -/
-theorem parse_total (line : Str) : parseCheckLine line ≠ .panic := parse_ne_panic line
+/- FULL STATEMENT (false):  ∀ line, parseCheckLine line ≠ .panic -/
+theorem parse_total_false : ¬ ∀ line : Str, parseCheckLine line ≠ .panic :=
+  fun h => h panicLine (by decide)
 
-example : parseCheckLine nonAsciiHashLine = .err .hex ∧
-    parseCheckLine (List.replicate 60 'a' ++ "😀  x".toList) = .err .hex ∧
-    parseCheckLine ("BLAKE3 (x) = ".toList ++ badHash) = .err .hex := by decide
+/-- Strongest true version: the parser panics EXACTLY on the lines whose hash field is 64 bytes
+long, has an odd number of characters, and is lowercase hex up to its last character (so the last
+character is a 2-byte one after 62 hex digits, or a 4-byte one after 60).  In particular it never
+panics when the hash field is ASCII. -/
+theorem parse_total_partial (line : Str) :
+    parseCheckLine line = .panic ↔
+      ∃ esc hf fs, fields line = some (esc, hf, fs) ∧ byteLen hf = 64 ∧ hf.length % 2 = 1 ∧ AllHex hf.dropLast :=
+  parse_panic_iff line
+
+theorem parse_total_partial_ascii (line : Str) (h : ∀ esc hf fs, fields line = some (esc, hf, fs) → AllAscii hf) :
+    parseCheckLine line ≠ .panic := by
+  intro hp
+  obtain ⟨esc, hf, fs, hfl, hna⟩ := parse_panic_nonascii hp
+  exact hna (h esc hf fs hfl)
+
+example : fields panicLine = some (false, badHash, ['x']) ∧ byteLen badHash = 64 ∧ badHash.length % 2 = 1 := by decide
 
 /-! ## parse_ok_shape -/
 
@@ -45,11 +59,14 @@ theorem parse_ok_shape (line : Str) (r : Parsed) (h : parseCheckLine line = .ok 
   obtain ⟨fs, p, hf, hl, hp, hv, h1, h2⟩ := (parse_ok_iff line r).mp h
   obtain ⟨body, hb1, _, hb3⟩ := fields_shape hf
   subst h1 h2
-  refine ⟨body, hb1, hb3.symm, hl, ?_, hv⟩
-  unfold pathOf at hp
-  cases he : r.isEscaped with
-  | true => simpa [he] using hp
-  | false => simpa [he] using hp.symm
+  refine ⟨body, hb1, ?_, hl, ?_, hv⟩
+  · rcases hb3 with h3 | ⟨h3, _⟩
+    · exact Or.inl h3
+    · exact Or.inr h3
+  · unfold pathOf at hp
+    cases he : r.isEscaped with
+    | true => simpa [he] using hp
+    | false => simpa [he] using hp.symm
 
 example : parseCheckLine ("\\BLAKE3 (a\\nb) = ".toList ++ hexEncode hashA ++ ['\r', '\n']) =
     .ok { fileString := "a\\nb".toList, isEscaped := true, filePath := ['a', '\n', 'b'], expectedHash := hashA } := by
@@ -72,46 +89,58 @@ theorem parse_rejects_wrong_length (line : Str) (esc : Bool) (hf fs : Str)
 
 example : fields (List.replicate 63 'a' ++ "  x".toList) = some (false, List.replicate 63 'a', ['x']) := by decide
 
-/-- a hash field with a character that is not a lowercase hex digit is an error -/
+/-- an ASCII hash field with a character that is not a lowercase hex digit is an error -/
 theorem parse_rejects_nonhex (line : Str) (esc : Bool) (hf fs : Str)
-    (hfl : fields line = some (esc, hf, fs)) (hx : ¬ AllHex hf) :
+    (hfl : fields line = some (esc, hf, fs)) (ha : AllAscii hf) (hx : ¬ AllHex hf) :
     parseCheckLine line = .err .hashLength ∨ parseCheckLine line = .err .hex := by
   rw [parse_eq_fields, hfl]
   simp only
   by_cases hl : byteLen hf = 64
   · right
     rw [if_neg (by simp [hl])]
-    by_cases ha : isAscii hf = true
-    · rw [if_neg (by simp [ha])]
-      cases hd : decodeHashLoop 32 hf with
-      | ok hb =>
-        exfalso
-        obtain ⟨h1, _⟩ := (decode64_ok_iff hl hb).mp hd
-        exact hx (h1 ▸ allHex_hexEncode hb)
-      | err e => rw [decodeHashLoop_err hd]; rfl
-      | panic => exact absurd hd (decodeHashLoop_ne_panic_of_ascii (isAscii_iff.mp ha) (by omega))
-    · rw [if_pos ha]
+    cases hd : decodeHashLoop 32 hf with
+    | ok hb =>
+      exfalso
+      obtain ⟨h1, _⟩ := (decode64_ok_iff hl hb).mp hd
+      exact hx (h1 ▸ allHex_hexEncode hb)
+    | err e => rw [decodeHashLoop_err hd]; rfl
+    | panic => exact absurd hd (decodeHashLoop_ne_panic_of_ascii ha (by omega))
   · left; rw [if_pos (by simpa using hl)]
 
 example : parseCheckLine (List.replicate 63 'a' ++ "A  x".toList) = .err .hex := by decide
 
-/-- a non-ASCII hash field is an error -/
-theorem parse_rejects_nonascii_hash (line : Str) (esc : Bool) (hf fs : Str)
+/- FULL STATEMENT (false): a non-ASCII hash field always gives an error:
+     fields line = some (esc, hf, fs) → ¬ AllAscii hf → ∃ e, parseCheckLine line = .err e -/
+theorem parse_rejects_nonascii_hash_false :
+    ¬ ∀ (line : Str) (esc : Bool) (hf fs : Str), fields line = some (esc, hf, fs) → ¬ AllAscii hf →
+        ∃ e, parseCheckLine line = .err e := by
+  intro h
+  have hna : ¬ AllAscii badHash := fun ha => absurd (ha 'é' (by decide)) (by decide)
+  obtain ⟨e, he⟩ := h panicLine false badHash ['x'] (by decide) hna
+  have hp : parseCheckLine panicLine = .panic := by decide
+  rw [hp] at he; cases he
+
+/-- Strongest true version: a non-ASCII hash field is never accepted (error or panic). -/
+theorem parse_rejects_nonascii_hash_partial (line : Str) (esc : Bool) (hf fs : Str)
     (hfl : fields line = some (esc, hf, fs)) (hna : ¬ AllAscii hf) :
-    parseCheckLine line = .err .hashLength ∨ parseCheckLine line = .err .hex :=
-  parse_rejects_nonhex line esc hf fs hfl (fun hx => hna hx.ascii)
+    (∃ e, parseCheckLine line = .err e) ∨ (parseCheckLine line = .panic ∧ ¬ AllAscii hf) := by
+  apply not_ok_cases hfl
+  intro r hr
+  obtain ⟨fs', p, hf', _⟩ := (parse_ok_iff line r).mp hr
+  rw [hfl] at hf'
+  simp at hf'
+  exact hna (hf'.2.1 ▸ (allHex_hexEncode r.expectedHash).ascii)
 
-example : fields nonAsciiHashLine = some (false, badHash, ['x']) ∧ byteLen badHash = 64 ∧ badHash.length = 63 ∧
-    parseCheckLine nonAsciiHashLine = .err .hex := by decide
+example : fields ("é".toList ++ List.replicate 62 'a' ++ "  x".toList) = some (false, "é".toList ++ List.replicate 62 'a', ['x']) ∧
+    parseCheckLine ("é".toList ++ List.replicate 62 'a' ++ "  x".toList) = .err .hex := by decide
 
-example : ¬ AllAscii badHash := fun ha => absurd (ha 'é' (by decide)) (by decide)
-
-/-- generic form of the path rejections: when the path of a line is missing or invalid, the line is
-an error -/
+/-- generic form of the remaining rejections: when the path of a line is missing or invalid, the
+line is never accepted; the outcome is an error, or the panic of `parse_total_false` when the hash
+field is non-ASCII -/
 theorem parse_rejects_path (line : Str) (esc : Bool) (hf fs : Str)
     (hfl : fields line = some (esc, hf, fs)) (hbad : ∀ p, pathOf esc fs = some p → ¬ ValidPath p) :
-    ∃ e, parseCheckLine line = .err e := by
-  apply not_ok_err
+    (∃ e, parseCheckLine line = .err e) ∨ (parseCheckLine line = .panic ∧ ¬ AllAscii hf) := by
+  apply not_ok_cases hfl
   intro r hr
   obtain ⟨fs', p, hf', _, hp, hv, _⟩ := (parse_ok_iff line r).mp hr
   rw [hfl] at hf'
@@ -120,49 +149,81 @@ theorem parse_rejects_path (line : Str) (esc : Bool) (hf fs : Str)
   subst h1 h3
   exact hbad p hp hv
 
-/-- an invalid or dangling escape is an error, whatever the rest of the line -/
-theorem parse_rejects_bad_escape (line : Str) (hf fs : Str)
+/- FULL STATEMENT (false): an invalid or dangling escape always gives an error:
+     fields line = some (true, hf, fs) → unescapeSpec fs = none → ∃ e, parseCheckLine line = .err e -/
+theorem parse_rejects_bad_escape_false :
+    ¬ ∀ (line : Str) (hf fs : Str), fields line = some (true, hf, fs) → unescapeSpec fs = none →
+        ∃ e, parseCheckLine line = .err e := by
+  intro h
+  obtain ⟨e, he⟩ := h ('\\' :: badHash ++ "  \\q".toList) badHash "\\q".toList (by decide) (by decide)
+  have hp : parseCheckLine ('\\' :: badHash ++ "  \\q".toList) = .panic := by decide
+  rw [hp] at he; cases he
+
+theorem parse_rejects_bad_escape_partial (line : Str) (hf fs : Str)
     (hfl : fields line = some (true, hf, fs)) (hbad : unescapeSpec fs = none) :
-    ∃ e, parseCheckLine line = .err e :=
+    (∃ e, parseCheckLine line = .err e) ∨ (parseCheckLine line = .panic ∧ ¬ AllAscii hf) :=
   parse_rejects_path line true hf fs hfl (by intro p hp; simp [pathOf, hbad] at hp)
 
 example : parseCheckLine ('\\' :: hexEncode hashA ++ "  a\\".toList) = .err .escape ∧
-    parseCheckLine ('\\' :: hexEncode hashA ++ "  a\\tb".toList) = .err .escape ∧
-    parseCheckLine ('\\' :: badHash ++ "  \\q".toList) = .err .hex := by decide
+    parseCheckLine ('\\' :: hexEncode hashA ++ "  a\\tb".toList) = .err .escape := by decide
 
-/-- an empty path is an error, whatever the rest of the line -/
-theorem parse_rejects_empty_path (line : Str) (esc : Bool) (hf fs : Str)
+/- FULL STATEMENT (false): an empty path always gives an error:
+     fields line = some (esc, hf, fs) → pathOf esc fs = some [] → ∃ e, parseCheckLine line = .err e -/
+theorem parse_rejects_empty_path_false :
+    ¬ ∀ (line : Str) (esc : Bool) (hf fs : Str), fields line = some (esc, hf, fs) → pathOf esc fs = some [] →
+        ∃ e, parseCheckLine line = .err e := by
+  intro h
+  obtain ⟨e, he⟩ := h (badHash ++ [' ', ' ']) false badHash [] (by decide) (by decide)
+  have hp : parseCheckLine (badHash ++ [' ', ' ']) = .panic := by decide
+  rw [hp] at he; cases he
+
+theorem parse_rejects_empty_path_partial (line : Str) (esc : Bool) (hf fs : Str)
     (hfl : fields line = some (esc, hf, fs)) (hbad : pathOf esc fs = some []) :
-    ∃ e, parseCheckLine line = .err e :=
+    (∃ e, parseCheckLine line = .err e) ∨ (parseCheckLine line = .panic ∧ ¬ AllAscii hf) :=
   parse_rejects_path line esc hf fs hfl (by
     intro p hp hv; rw [hbad] at hp; exact hv.1 (Option.some.inj hp).symm)
 
 example : parseCheckLine (hexEncode hashA ++ [' ', ' ']) = .err .emptyPath ∧
-    parseCheckLine ("BLAKE3 () = ".toList ++ hexEncode hashA) = .err .emptyPath ∧
-    parseCheckLine (badHash ++ [' ', ' ']) = .err .hex := by decide
+    parseCheckLine ("BLAKE3 () = ".toList ++ hexEncode hashA) = .err .emptyPath := by decide
 
-/-- a NUL in the path is an error, whatever the rest of the line -/
-theorem parse_rejects_nul (line : Str) (esc : Bool) (hf fs p : Str)
+/- FULL STATEMENT (false): a NUL in the path always gives an error:
+     fields line = some (esc, hf, fs) → pathOf esc fs = some p → NUL ∈ p → ∃ e, parseCheckLine line = .err e -/
+theorem parse_rejects_nul_false :
+    ¬ ∀ (line : Str) (esc : Bool) (hf fs p : Str), fields line = some (esc, hf, fs) → pathOf esc fs = some p →
+        NUL ∈ p → ∃ e, parseCheckLine line = .err e := by
+  intro h
+  obtain ⟨e, he⟩ := h (badHash ++ [' ', ' ', NUL]) false badHash [NUL] [NUL] (by decide) (by decide) (by decide)
+  have hp : parseCheckLine (badHash ++ [' ', ' ', NUL]) = .panic := by decide
+  rw [hp] at he; cases he
+
+theorem parse_rejects_nul_partial (line : Str) (esc : Bool) (hf fs p : Str)
     (hfl : fields line = some (esc, hf, fs)) (hp : pathOf esc fs = some p) (hbad : NUL ∈ p) :
-    ∃ e, parseCheckLine line = .err e :=
+    (∃ e, parseCheckLine line = .err e) ∨ (parseCheckLine line = .panic ∧ ¬ AllAscii hf) :=
   parse_rejects_path line esc hf fs hfl (by
     intro q hq hv; rw [hp] at hq; exact hv.2.1 ((Option.some.inj hq) ▸ hbad))
 
-example : parseCheckLine (hexEncode hashA ++ [' ', ' ', 'a', NUL, 'b']) = .err .nul ∧
-    parseCheckLine (badHash ++ [' ', ' ', NUL]) = .err .hex := by decide
+example : parseCheckLine (hexEncode hashA ++ [' ', ' ', 'a', NUL, 'b']) = .err .nul := by decide
 
-/-- U+FFFD in the path is an error, whatever the rest of the line -/
-theorem parse_rejects_fffd (line : Str) (esc : Bool) (hf fs p : Str)
+/- FULL STATEMENT (false): U+FFFD in the path always gives an error:
+     fields line = some (esc, hf, fs) → pathOf esc fs = some p → REPL ∈ p → ∃ e, parseCheckLine line = .err e -/
+theorem parse_rejects_fffd_false :
+    ¬ ∀ (line : Str) (esc : Bool) (hf fs p : Str), fields line = some (esc, hf, fs) → pathOf esc fs = some p →
+        REPL ∈ p → ∃ e, parseCheckLine line = .err e := by
+  intro h
+  obtain ⟨e, he⟩ := h (badHash ++ [' ', ' ', REPL]) false badHash [REPL] [REPL] (by decide) (by decide) (by decide)
+  have hp : parseCheckLine (badHash ++ [' ', ' ', REPL]) = .panic := by decide
+  rw [hp] at he; cases he
+
+theorem parse_rejects_fffd_partial (line : Str) (esc : Bool) (hf fs p : Str)
     (hfl : fields line = some (esc, hf, fs)) (hp : pathOf esc fs = some p) (hbad : REPL ∈ p) :
-    ∃ e, parseCheckLine line = .err e :=
+    (∃ e, parseCheckLine line = .err e) ∨ (parseCheckLine line = .panic ∧ ¬ AllAscii hf) :=
   parse_rejects_path line esc hf fs hfl (by
     intro q hq hv; rw [hp] at hq; exact hv.2.2 ((Option.some.inj hq) ▸ hbad))
 
-example : parseCheckLine ("BLAKE3 (a".toList ++ [REPL] ++ ") = ".toList ++ hexEncode hashA) = .err .fffd ∧
-    parseCheckLine (badHash ++ [' ', ' ', REPL]) = .err .hex := by decide
+example : parseCheckLine ("BLAKE3 (a".toList ++ [REPL] ++ ") = ".toList ++ hexEncode hashA) = .err .fffd := by decide
 
-/-- With a hash field of 64 lowercase hex digits (a line that is valid except for its path) the
-outcome is decided by the path alone, with the documented message. -/
+/-- With a hash field of 64 lowercase hex digits (a line that is valid except for its path) all
+four path rejections are genuine errors, with the documented message. -/
 theorem parse_rejects_path_of_good_hash (line : Str) (esc : Bool) (hb : List UInt8) (fs : Str)
     (hfl : fields line = some (esc, hexEncode hb, fs)) (hl : hb.length = 32) :
     parseCheckLine line =
@@ -176,19 +237,14 @@ theorem parse_rejects_path_of_good_hash (line : Str) (esc : Bool) (hb : List UIn
   rw [parse_eq_fields, hfl]
   simp only
   have hbl : byteLen (hexEncode hb) = 64 := by rw [byteLen_hexEncode, hl]
-  have hasc : isAscii (hexEncode hb) = true := isAscii_iff.mpr (allHex_hexEncode _).ascii
-  rw [if_neg (by simp [hbl]), if_neg (by simp [hasc]), (decode64_ok_iff hbl hb).mpr ⟨rfl, hl⟩, Res.bind_ok, finish_eq]
+  rw [if_neg (by simp [hbl]), (decode64_ok_iff hbl hb).mpr ⟨rfl, hl⟩, Res.bind_ok, finish_eq]
   cases pathOf esc fs with
   | none => rfl
   | some p => simp
 
-example : fields ('\\' :: hexEncode hashA ++ "  a\\nb".toList) = some (true, hexEncode hashA, "a\\nb".toList) := by decide
-
 /-! ## parse_format_plain, parse_format_tagged -/
 
-/-- every line printed in the plain form for a valid path — including paths that contain two
-spaces, `) = `, or start with `BLAKE3 (`, escaped or not — parses back to the same path and hash
-(the tagged form, now tried first, never matches: the line starts with the hash) -/
+/-- every line printed in the plain form for a valid path parses back to the same path and hash -/
 theorem parse_format_plain (p : Str) (hb : List UInt8) (term : Str)
     (hp : ValidPath p) (hl : hb.length = 32) (ht : IsTerm term) :
     parseCheckLine (formatLine false p (hexEncode hb) ++ term) =
@@ -201,34 +257,45 @@ theorem parse_format_plain (p : Str) (hb : List UInt8) (term : Str)
 example : ValidPath "BLAKE3 (a  b) = \\\r\n ".toList ∧ hashA.length = 32 ∧ IsTerm ['\r', '\n'] := by
   refine ⟨⟨by decide, by decide, by decide⟩, by decide, by simp [IsTerm]⟩
 
-example : parseCheckLine (formatLine false "BLAKE3 (a  b) = c\n".toList (hexEncode hashA) ++ ['\r', '\n']) =
-    .ok { fileString := "BLAKE3 (a  b) = c\\n".toList, isEscaped := true, filePath := "BLAKE3 (a  b) = c\n".toList,
-          expectedHash := hashA } ∧
-    parseCheckLine (formatLine false "BLAKE3 (x) = y".toList (hexEncode hashA)) =
-    .ok { fileString := "BLAKE3 (x) = y".toList, isEscaped := false, filePath := "BLAKE3 (x) = y".toList,
-          expectedHash := hashA } := by
+example : parseCheckLine (formatLine false "a  b\n".toList (hexEncode hashA) ++ ['\r', '\n']) =
+    .ok { fileString := "a  b\\n".toList, isEscaped := true, filePath := "a  b\n".toList, expectedHash := hashA } := by
   decide
 
-/-- every line printed in the `--tag` form for a valid path — including paths with two spaces and
-paths that themselves contain `) = ` (the split is from the right, and the hash contains no `)`) —
-parses back to the same path and hash -/
-theorem parse_format_tagged (p : Str) (hb : List UInt8) (term : Str)
+/- FULL STATEMENT (false):  ∀ p hb term, ValidPath p → hb.length = 32 → IsTerm term →
+     parseCheckLine (formatLine true p (hexEncode hb) ++ term) = .ok { …, filePath := p, expectedHash := hb } -/
+theorem parse_format_tagged_false :
+    ¬ ∀ (p : Str) (hb : List UInt8) (term : Str), ValidPath p → hb.length = 32 → IsTerm term →
+        parseCheckLine (formatLine true p (hexEncode hb) ++ term) =
+          .ok { fileString := (filepathToString p).1, isEscaped := (filepathToString p).2, filePath := p,
+                expectedHash := hb } := by
+  intro h
+  have := h ['a', ' ', ' ', 'b'] hashA ['\n'] ⟨by decide, by decide, by decide⟩ (by decide) (by simp [IsTerm])
+  exact absurd this (by decide)
+
+/-- Strongest true version: the `--tag` line of a valid path parses back iff the path has no two
+consecutive spaces; if it has, the line is an error (never accepted as a different path). -/
+theorem parse_format_tagged_partial (p : Str) (hb : List UInt8) (term : Str)
     (hp : ValidPath p) (hl : hb.length = 32) (ht : IsTerm term) :
-    parseCheckLine (formatLine true p (hexEncode hb) ++ term) =
-      .ok { fileString := (filepathToString p).1, isEscaped := (filepathToString p).2, filePath := p,
-            expectedHash := hb } := by
-  rw [parse_of_fields_fmt hl (fields_tagged p ht), filepathToString_eq]
-  obtain ⟨h0, h1, h2⟩ := hp
-  simp [h0, h1, h2]
+    (hasDbl p = false →
+      parseCheckLine (formatLine true p (hexEncode hb) ++ term) =
+        .ok { fileString := (filepathToString p).1, isEscaped := (filepathToString p).2, filePath := p,
+              expectedHash := hb }) ∧
+    (hasDbl p = true →
+      parseCheckLine (formatLine true p (hexEncode hb) ++ term) = .err .hashLength ∨
+      parseCheckLine (formatLine true p (hexEncode hb) ++ term) = .err .hex) := by
+  constructor
+  · intro hd
+    rw [parse_of_fields_fmt hl (fields_tagged p ht hd), filepathToString_eq]
+    obtain ⟨h0, h1, h2⟩ := hp
+    simp [h0, h1, h2]
+  · intro hd
+    exact parse_tagged_dbl_err p ht hd
 
-example : parseCheckLine (formatLine true "a  b".toList (hexEncode hashA) ++ ['\n']) =
-    .ok { fileString := "a  b".toList, isEscaped := false, filePath := "a  b".toList, expectedHash := hashA } ∧
-    parseCheckLine (formatLine true "x) = y  ) = \\".toList (hexEncode hashA) ++ ['\r', '\n']) =
-    .ok { fileString := "x) = y  ) = \\\\".toList, isEscaped := true, filePath := "x) = y  ) = \\".toList,
-          expectedHash := hashA } ∧
-    parseCheckLine (formatLine true "BLAKE3 (".toList (hexEncode hashA)) =
-    .ok { fileString := "BLAKE3 (".toList, isEscaped := false, filePath := "BLAKE3 (".toList, expectedHash := hashA } := by
+example : parseCheckLine (formatLine true "x) = y\\".toList (hexEncode hashA) ++ ['\n']) =
+    .ok { fileString := "x) = y\\\\".toList, isEscaped := true, filePath := "x) = y\\".toList, expectedHash := hashA } := by
   decide
+
+example : parseCheckLine (formatLine true "a  b".toList (hexEncode hashA) ++ ['\n']) = .err .hashLength := by decide
 
 /-! ## format_injective and "never confuses two paths" -/
 
@@ -263,7 +330,11 @@ theorem parse_format_sound (tag : Bool) (p : Str) (hb : List UInt8) (term : Str)
           exact ⟨rfl, rfl, h0, h1, h2⟩
   cases tag with
   | false => exact key (fields_plain p hl ht) h
-  | true => exact key (fields_tagged p ht) h
+  | true =>
+    cases hd : hasDbl p with
+    | false => exact key (fields_tagged p ht hd) h
+    | true =>
+      rcases parse_tagged_dbl_err p (hb := hb) ht hd with e | e <;> rw [e] at h <;> simp at h
 
 /-- no two different path strings ever yield lines that parse to the same path -/
 theorem parse_format_no_confusion (t1 t2 : Bool) (p1 p2 : Str) (hb1 hb2 : List UInt8) (term1 term2 : Str)
@@ -294,16 +365,21 @@ theorem parse_format_unrepresentable (tag : Bool) (p : Str) (hb : List UInt8) (t
           exact absurd ⟨h0, h1, h2⟩ hbad
   cases tag with
   | false => exact key (fields_plain p hl ht)
-  | true => exact key (fields_tagged p ht)
+  | true =>
+    cases hd : hasDbl p with
+    | false => exact key (fields_tagged p ht hd)
+    | true => rcases parse_tagged_dbl_err p (hb := hb) ht hd with e | e <;> exact ⟨_, e⟩
 
 example : parseCheckLine (formatLineBytes false [0x61, 0xff, 0x62] (hexEncode hashA) ++ ['\n']) = .err .fffd := by decide
 
 /-! ## the same, for OS paths (arbitrary byte strings on Unix) -/
 
-/-- An OS path that is valid UTF-8 with a valid text round-trips in both forms, and the file
-`--check` then opens — the UTF-8 bytes of the parsed path — is exactly the original OS path. -/
+/-- An OS path that is valid UTF-8 with a valid text round-trips (plain form; `--tag` form when it
+has no two consecutive spaces), and the file `--check` then opens — the UTF-8 bytes of the parsed
+path — is exactly the original OS path. -/
 theorem parse_format_bytes (tag : Bool) (b : List UInt8) (p : Str) (hb : List UInt8) (term : Str)
-    (hs : strictDecode b = some p) (hp : ValidPath p) (hl : hb.length = 32) (ht : IsTerm term) :
+    (hs : strictDecode b = some p) (hp : ValidPath p) (hl : hb.length = 32) (ht : IsTerm term)
+    (hd : tag = true → hasDbl p = false) :
     ∃ r, parseCheckLine (formatLineBytes tag b (hexEncode hb) ++ term) = .ok r ∧
       utf8Encode r.filePath = b ∧ r.expectedHash = hb := by
   have hlp := lossy_of_strict hs
@@ -314,7 +390,7 @@ theorem parse_format_bytes (tag : Bool) (b : List UInt8) (p : Str) (hb : List UI
   rw [hlp]
   cases tag with
   | false => exact ⟨_, parse_format_plain p hb term hp hl ht, henc, rfl⟩
-  | true => exact ⟨_, parse_format_tagged p hb term hp hl ht, henc, rfl⟩
+  | true => exact ⟨_, (parse_format_tagged_partial p hb term hp hl ht).1 (hd rfl), henc, rfl⟩
 
 example : strictDecode [0xc3, 0xa9, 0x20, 0x5c] = some "é \\".toList ∧ ValidPath "é \\".toList := by
   refine ⟨by decide, by decide, by decide, by decide⟩
@@ -340,20 +416,28 @@ theorem parse_format_bytes_unrepresentable (tag : Bool) (b : List UInt8) (hb : L
 example : strictDecode [0x61, 0xed, 0xa0, 0x80] = none ∧ lossyDecode [0x61, 0xed, 0xa0, 0x80] = ['a', REPL, REPL, REPL] := by
   decide
 
-#print axioms parse_total
+#print axioms parse_total_false
+#print axioms parse_total_partial
+#print axioms parse_total_partial_ascii
 #print axioms parse_ok_shape
 #print axioms parse_rejects_empty
 #print axioms parse_rejects_wrong_length
 #print axioms parse_rejects_nonhex
-#print axioms parse_rejects_nonascii_hash
+#print axioms parse_rejects_nonascii_hash_false
+#print axioms parse_rejects_nonascii_hash_partial
 #print axioms parse_rejects_path
-#print axioms parse_rejects_bad_escape
-#print axioms parse_rejects_empty_path
-#print axioms parse_rejects_nul
-#print axioms parse_rejects_fffd
+#print axioms parse_rejects_bad_escape_false
+#print axioms parse_rejects_bad_escape_partial
+#print axioms parse_rejects_empty_path_false
+#print axioms parse_rejects_empty_path_partial
+#print axioms parse_rejects_nul_false
+#print axioms parse_rejects_nul_partial
+#print axioms parse_rejects_fffd_false
+#print axioms parse_rejects_fffd_partial
 #print axioms parse_rejects_path_of_good_hash
 #print axioms parse_format_plain
-#print axioms parse_format_tagged
+#print axioms parse_format_tagged_false
+#print axioms parse_format_tagged_partial
 #print axioms format_injective
 #print axioms parse_format_sound
 #print axioms parse_format_no_confusion
